@@ -38,7 +38,20 @@ impl AstCase {
             Inputs::Lit(v) => v.clone(),
             Inputs::Raw(r) => {
                 let alpha = gen::input_alphabet(&node, flags, extra_alpha);
-                let mut v: Vec<String> = r.iter().map(|x| gen::materialize_input(x, &alpha)).collect();
+                // every second input is sampled from the pattern's own language (likely to match, often more than
+                // once); the others are random strings over the pattern's alphabet
+                let mut v: Vec<String> = r
+                    .iter()
+                    .enumerate()
+                    .map(|(i, x)| {
+                        if i % 2 == 1 && !x.is_empty() {
+                            let s: String = gen::sample_input(&node, flags, x, &alpha).chars().take(x.len().max(4) + 4).collect();
+                            s
+                        } else {
+                            gen::materialize_input(x, &alpha)
+                        }
+                    })
+                    .collect();
                 v.dedup();
                 v
             }
